@@ -425,4 +425,192 @@ example : (SpooledBytesIO.len { buffer := ⟨⟨[1, 2, 3], 3⟩, false, true, tr
 example : (SpooledBytesIO.truncate { buffer := ⟨⟨[1, 2, 3], 3⟩, false, false, false⟩, max_size := 9, dir := () } (some 1))
     = (.ok none, { buffer := ⟨⟨[1], 1⟩, false, false, false⟩, max_size := 9, dir := () }) := by decide
 
+/-! ## 3. MultiFileReader against the hand model `MFR` -/
+
+section mfr
+variable {β : Type} [Inhabited β]
+
+abbrev MS (β : Type) := MultiFileReader.St β
+
+/-- the object stands for the model state: open member files with the model's contents and positions -/
+structure RelM (st : MS β) (m : MFR β) : Prop where
+  files : st.fileobjs.map (·.f) = m.files
+  opened : ∀ o ∈ st.fileobjs, o.closed = false
+  index : st.index = (m.index : Int)
+  joiner : st.joiner = []
+
+theorem forEachFile_ok {ρ : Type} (op : FileObj β → Res ρ (FileObj β)) (r : FileObj β → ρ)
+    (g : FileObj β → FileObj β) (fs : List (FileObj β)) (h : ∀ o ∈ fs, op o = (.ok (r o), g o)) :
+    forEachFile op fs = (.ok (fs.map r), fs.map g) := by
+  induction fs with
+  | nil => rfl
+  | cons o os ih =>
+    simp only [forEachFile, h o (by simp), ih (fun x hx => h x (by simp [hx])), List.map_cons]
+
+theorem join_nil (ps : List (List β)) : join ([] : List β) ps = ps.flatten := by
+  induction ps with
+  | nil => rfl
+  | cons p qs ih =>
+    cases qs with
+    | nil => simp [join]
+    | cons q qs => simp only [join, List.append_nil, ih, List.flatten_cons]
+
+theorem index?_append_last {α : Type} (l : List α) (x : α) : PyRt.index? (l ++ [x]) (-1) = .ok x := by
+  have h : PyRt.normIdx (l ++ [x]) (-1) = (l.length : Int) := by
+    simp [PyRt.normIdx]; omega
+  simp [PyRt.index?, h]
+
+/-- `seek(0)`: every member is rewound and the index reset — `MFR.seek0` -/
+theorem src_mfr_seek_eq_model (st : MS β) (m : MFR β) (h : RelM st m) :
+    (MultiFileReader.seek st 0 0).1 = .ok () ∧ RelM (MultiFileReader.seek st 0 0).2 m.seek0 := by
+  have hfe := forEachFile_ok (fun o => FileObj.seek o 0 0) (fun _ => (0 : Int))
+    (fun o => { o with f := o.f.seek 0, stale := false }) st.fileobjs
+    (by intro o ho; simp [FileObj.seek, FileObj.target, h.opened o ho])
+  refine ⟨by simp [MultiFileReader.seek, MultiFileReader.seek.body, hfe], ?_⟩
+  constructor
+  · simp [MultiFileReader.seek, MultiFileReader.seek.body, hfe, MFR.seek0, ← h.files, Function.comp_def]
+  · intro o ho
+    simp [MultiFileReader.seek, MultiFileReader.seek.body, hfe] at ho
+    obtain ⟨a, ha, rfl⟩ := ho
+    exact h.opened a ha
+  · simp [MultiFileReader.seek, MultiFileReader.seek.body, hfe, MFR.seek0]
+  · simp [MultiFileReader.seek, MultiFileReader.seek.body, hfe, h.joiner]
+
+/-- any other `seek` raises (NotImplementedError) and touches nothing -/
+theorem src_mfr_seek_unsupported (st : MS β) (offset whence : Int) (h : offset ≠ 0 ∨ whence ≠ 0) :
+    MultiFileReader.seek st offset whence = (.error .Other, st) := by
+  by_cases hw : whence = 0 <;> by_cases ho : offset = 0 <;>
+    simp_all [MultiFileReader.seek, MultiFileReader.seek.body]
+
+/-- `read()` / `read(None)` / `read(0)`: every member is read to its end, in order, the index stays — `MFR.readAll` -/
+theorem src_mfr_read_all_eq_model (lfuel : Nat) (st : MS β) (m : MFR β) (amt : Option Int) (h : RelM st m)
+    (ha : truthyOptInt amt = false) :
+    (MultiFileReader.read lfuel st amt).1 = .ok m.readAll.1 ∧ RelM (MultiFileReader.read lfuel st amt).2 m.readAll.2 := by
+  have hfe := forEachFile_ok (fun o => FileObj.readAll o) (fun o => o.f.readAll.1)
+    (fun o => { o with f := o.f.readAll.2 }) st.fileobjs
+    (by intro o ho; simp [FileObj.readAll, FileObj.read, h.opened o ho])
+  refine ⟨by simp [MultiFileReader.read, MultiFileReader.read.body, hfe, ha, h.joiner, join_nil, MFR.readAll,
+    ← h.files, Function.comp_def], ?_⟩
+  constructor
+  · simp [MultiFileReader.read, MultiFileReader.read.body, hfe, ha, MFR.readAll, ← h.files, Function.comp_def]
+  · intro o ho
+    simp [MultiFileReader.read, MultiFileReader.read.body, hfe, ha] at ho
+    obtain ⟨a, ha', rfl⟩ := ho
+    exact h.opened a ha'
+  · simp [MultiFileReader.read, MultiFileReader.read.body, hfe, ha, MFR.readAll, h.index]
+  · simp [MultiFileReader.read, MultiFileReader.read.body, hfe, ha, h.joiner]
+
+/-- what ONE iteration of the sized-read loop does to an object whose current member `o` is open: the member is read,
+    the chunk appended, the index advanced when the member came up short, the amount reduced by what was got
+    (the scratch local `got` is not mentioned) -/
+theorem mfr_body_spec (s : MultiFileReader.read.St β) (i a : Nat) (o : FileObj β)
+    (hi : s.self.index = (i : Int)) (ho : s.self.fileobjs[i]? = some o) (hc : o.closed = false)
+    (ha : s.amt = some (a : Int)) :
+    (∃ s', MultiFileReader.read.loop1.body s = (.next, s')) ∧
+      (MultiFileReader.read.loop1.body s).2.self.fileobjs = s.self.fileobjs.set i { o with f := (o.f.readN a).2 } ∧
+      (MultiFileReader.read.loop1.body s).2.self.index = ((if (o.f.readN a).1.length < a then i + 1 else i : Nat) : Int) ∧
+      (MultiFileReader.read.loop1.body s).2.self.joiner = s.self.joiner ∧
+      (MultiFileReader.read.loop1.body s).2.amt = some ((a - (o.f.readN a).1.length : Nat) : Int) ∧
+      (MultiFileReader.read.loop1.body s).2.loc1 = s.loc1 ++ [(o.f.readN a).1] := by
+  have hn : PyRt.normIdx s.self.fileobjs (i : Int) = (i : Int) := by simp [PyRt.normIdx]; omega
+  have hin : ¬ ((i : Int) < 0) := by omega
+  have hle : (o.f.readN a).1.length ≤ a := by simp [File.readN]; omega
+  have hnn : ¬ ((a : Int) < 0) := by omega
+  have hsub : ((a : Int) - ((o.f.readN a).1.length : Int)) = ((a - (o.f.readN a).1.length : Nat) : Int) := by omega
+  by_cases hlt : (o.f.readN a).1.length < a
+  · have hltI : ((o.f.readN a).1.length : Int) < (a : Int) := by omega
+    simp [MultiFileReader.read.loop1.body, atFile, hi, hn, hin, ho, FileObj.read, hc, ha, PyRt.unwrap, hnn,
+      PyRt.append, index?_append_last, PyRt.len, hltI, hlt, hsub]
+  · have hltI : ¬ (((o.f.readN a).1.length : Int) < (a : Int)) := by omega
+    simp [MultiFileReader.read.loop1.body, atFile, hi, hn, hin, ho, FileObj.read, hc, ha, PyRt.unwrap, hnn,
+      PyRt.append, index?_append_last, PyRt.len, hltI, hlt, hsub]
+
+/-- a bound on the tests of the loop condition still to come -/
+def mfrMeasure (m : MFR β) (a : Nat) : Nat := if a = 0 then 0 else (m.files.length - m.index) + 1
+
+theorem whileLoop_succ {σ ρ : Type} (c : σ → Bool) (body : Stmt σ ρ) (n : Nat) (s : σ) :
+    whileLoop c body (n + 1) s =
+      (if c s then
+        match body s with
+        | (.next, s1) => whileLoop c body n s1
+        | (.cont, s1) => whileLoop c body n s1
+        | (.brk, s1) => (.next, s1)
+        | (fl, s1) => (fl, s1)
+      else (.next, s)) := rfl
+
+/-- THE LOOP: with enough fuel on both sides, the generated `while` loop ends normally in an object standing for
+    what the model's `readLoop` computes, with the same chunks (the model keeps them in reverse order) -/
+theorem mfr_loop_sim (n : Nat) : ∀ (k : Nat) (s : MultiFileReader.read.St β) (m : MFR β) (a : Nat)
+    (parts : List (List β)), RelM s.self m → s.amt = some (a : Int) → s.loc1 = parts.reverse →
+    mfrMeasure m a < n → mfrMeasure m a < k →
+    ∃ s', whileLoop MultiFileReader.read.loop1.cond MultiFileReader.read.loop1.body n s = (.next, s') ∧
+      RelM s'.self (MFR.readLoop k m a parts).2 ∧ s'.loc1 = (MFR.readLoop k m a parts).1.reverse := by
+  induction n with
+  | zero => intro k s m a parts _ _ _ hn; omega
+  | succ n ih =>
+    intro k s m a parts hr ha hp hn hk
+    obtain ⟨k, rfl⟩ : ∃ k', k = k' + 1 := ⟨k - 1, by omega⟩
+    have hlen : s.self.fileobjs.length = m.files.length := by rw [← hr.files]; simp
+    have hcond : MultiFileReader.read.loop1.cond s = decide (0 < a ∧ m.index < m.files.length) := by
+      simp [MultiFileReader.read.loop1.cond, ha, PyRt.unwrap, hr.index, PyRt.len, hlen]
+    rw [whileLoop_succ, hcond]
+    unfold MFR.readLoop
+    by_cases ha0 : 0 < a
+    · cases hf : m.files[m.index]? with
+      | none =>
+        have : ¬ m.index < m.files.length := by
+          intro hlt; rw [List.getElem?_eq_getElem hlt] at hf; cases hf
+        simp [ha0, this, hf]
+        exact ⟨hr, hp⟩
+      | some f =>
+        have hlt : m.index < m.files.length := by
+          apply Classical.byContradiction; intro hge
+          rw [List.getElem?_eq_none (by omega)] at hf; cases hf
+        have hlt' : m.index < s.self.fileobjs.length := by omega
+        have ho : s.self.fileobjs[m.index]? = some s.self.fileobjs[m.index] := List.getElem?_eq_getElem hlt'
+        have hof : (s.self.fileobjs[m.index]).f = f := by
+          have := hr.files
+          have h2 : (s.self.fileobjs.map (·.f))[m.index]? = some f := by rw [this]; exact hf
+          simpa [List.getElem?_map, ho] using h2
+        have hoc := hr.opened _ (List.getElem_mem hlt')
+        obtain ⟨⟨s1, hs1⟩, hfs, hidx, hj, hamt, hl1⟩ :=
+          mfr_body_spec s m.index a _ hr.index ho hoc ha
+        rw [hs1] at hfs hidx hj hamt hl1
+        simp only at hfs hidx hj hamt hl1
+        rw [hof] at hfs hidx hamt hl1
+        simp only [ha0, hlt, and_self, decide_true, if_true, hs1, gt_iff_lt]
+        -- the model's next state
+        have hrel : ∀ idx : Nat, s1.self.index = (idx : Int) →
+            RelM s1.self ⟨setAt m.files m.index (f.readN a).2, idx⟩ := by
+          intro idx hidx'
+          refine ⟨?_, ?_, hidx', by rw [hj]; exact hr.joiner⟩
+          · rw [hfs, setAt, ← hr.files]; simp [List.map_set]
+          · intro o ho'
+            rw [hfs] at ho'
+            rcases List.mem_or_eq_of_mem_set ho' with h1 | h1
+            · exact hr.opened o h1
+            · rw [h1]; exact hoc
+        have hlen' : (setAt m.files m.index (f.readN a).2).length = m.files.length := by simp [setAt]
+        by_cases hshort : (f.readN a).1.length < a
+        · rw [if_pos hshort] at hidx ⊢
+          have hm : mfrMeasure ⟨setAt m.files m.index (f.readN a).2, m.index + 1⟩ (a - (f.readN a).1.length) <
+              mfrMeasure m a := by
+            have ha' : a - (f.readN a).1.length ≠ 0 := by omega
+            have ha0' : a ≠ 0 := by omega
+            simp only [mfrMeasure, if_neg ha', if_neg ha0', hlen']; omega
+          exact ih k s1 _ _ _ (hrel _ hidx) hamt (by rw [hl1, hp]; simp) (by omega) (by omega)
+        · rw [if_neg hshort] at hidx ⊢
+          have hm : mfrMeasure ⟨setAt m.files m.index (f.readN a).2, m.index⟩ (a - (f.readN a).1.length) <
+              mfrMeasure m a := by
+            have ha' : a - (f.readN a).1.length = 0 := by omega
+            have ha0' : a ≠ 0 := by omega
+            simp only [mfrMeasure, if_pos ha', if_neg ha0']; omega
+          exact ih k s1 _ _ _ (hrel _ hidx) hamt (by rw [hl1, hp]; simp) (by omega) (by omega)
+    · have : a = 0 := by omega
+      subst this
+      simp
+      exact ⟨hr, hp⟩
+
+end mfr
+
 end C18
